@@ -2,7 +2,8 @@
 import dns
 import pktgen
 
-SLICE = "RT P (build_bytes_vec then Packet::parse) over packets assembled through the public constructors"
+SLICE = ("RT P (build_bytes_vec then Packet::parse) over packets assembled through the public constructors; TXTTEXT (a TXT made "
+         "by TXT::try_from(&str), which keeps its own length bookkeeping, inside a packet)")
 RULE = ("seeded packet descriptions over every typed RDATA variant (rotating so each appears every run), unknown-type and empty "
         "RDATA, all 5 classes, the 6 QTYPE/QCLASS specials, binary labels (1..63 bytes, names <= 255), boundary integers, "
         "0..n entries per section, with/without OPT, every named opcode/rcode. non-trivial = build and parse both succeed; "
@@ -17,6 +18,11 @@ def cases(rng, tier):
         c = "RT P " + dns.pkt_text(p)
         DESCS[c] = p
         out.append(c)
+    # values made by the other public constructor of TXT (from text, 254-byte chunks): lengths around every chunk boundary
+    lens = sorted(set([0, 1, 2, 100, 1000, 1270, 2032] + [k * m + d for k in (1, 2, 3, 4, 5) for m in (253, 254, 255, 256) for d in (-1, 0, 1)]))
+    for L in lens:
+        out.append("TXTTEXT " + (("a" * L).encode().hex() or "-"))
+        out.append("TXTTEXT " + (("é" * (L // 2) + ("a" if L % 2 else "")).encode().hex() or "-"))
     return out
 
 
@@ -32,7 +38,30 @@ def nontrivial(case, out):
     return " | OK" in out
 
 
+def oracle_txt(case, out):
+    text = bytes.fromhex(case.split()[1]) if case.split()[1] != "-" else b""
+    parts = out.split(" | ")
+    if out.startswith("PANIC") or out in ("HANG", "CRASH"):
+        return "%s building a TXT from %d bytes of text" % (out, len(text))
+    if len(parts) != 4:
+        return None
+    if not parts[2].startswith("OK "):
+        return "build_bytes_vec failed for a packet holding TXT::try_from(<%d bytes of text>): %r" % (len(text), parts[2][:80])
+    msg = bytes.fromhex(parts[2][3:])
+    w = dns.walk(msg)
+    if w is None or w["end"] != len(msg) or w["counts"] != (0, 1, 0, 0):
+        return "the packet built around TXT::try_from(<%d bytes of text>) does not parse back as one answer: %s" % (len(text), parts[2][3:100])
+    if text:
+        # RFC 1035 3.3.14: the character-strings one after the other; the text is cut every 254 bytes
+        rd = b"".join(bytes([len(text[i:i + 254])]) + text[i:i + 254] for i in range(0, len(text), 254))
+        if not msg.endswith(len(rd).to_bytes(2, "big") + rd):
+            return "the TXT record written for %d bytes of text is not RDLENGTH + its character-strings" % len(text)
+    return None
+
+
 def oracle(case, out):
+    if case.startswith("TXTTEXT"):
+        return oracle_txt(case, out)
     p = DESCS.get(case) or dns.parse_pkt_text(case[5:])
     if not out.startswith("OK "):
         return "build_bytes_vec failed on a well-formed packet: %r" % out[:200]
